@@ -9,3 +9,107 @@ package nbt
 //@ func (RawMessage).Unmarshal(m; v) (err)
 //@   trusted
 //@   modifies *v
+
+// ---------------------------------------------------------------- leaf decoders (C01, C03, C09)
+//
+// Big-endian, signed, exactly the bytes of the value; a failing reader is an error.
+
+//@ func (*Decoder).readInt8(d) (res, err)
+//@   requires !isnil(d.r)
+//@   let st = stream(d.r)
+//@   let p0 = old(Spos(st))
+//@   ensures err == nil ==> res == int8(Sin(st, p0)) && Spos(st) == p0 + 1           [@value @consume]
+//@   ensures Sfail(st) ==> err != nil                                                [@errprop]
+//@   ensures !Sfail(st) ==> err == nil                                               [@errprop]
+//@   ensures Spos(st) >= p0 && Spos(st) <= p0 + 1                                    [@consume]
+//@   modifies stream(d.r)                                                            [@frame]
+
+//@ func (*Decoder).readInt16(d) (res, err)
+//@   requires !isnil(d.r)
+//@   let st = stream(d.r)
+//@   let p0 = old(Spos(st))
+//@   ensures err == nil ==> res == int16(be16(Sinrow(st), p0)) && Spos(st) == p0 + 2 [@value @consume]
+//@   ensures Sfail(st) ==> err != nil                                                [@errprop]
+//@   ensures !Sfail(st) ==> err == nil                                               [@errprop]
+//@   ensures Spos(st) >= p0 && Spos(st) <= p0 + 2                                    [@consume]
+//@   modifies stream(d.r)                                                            [@frame]
+
+//@ func (*Decoder).readInt32(d) (res, err)
+//@   requires !isnil(d.r)
+//@   let st = stream(d.r)
+//@   let p0 = old(Spos(st))
+//@   ensures err == nil ==> res == int32(be32(Sinrow(st), p0)) && Spos(st) == p0 + 4 [@value @consume]
+//@   ensures Sfail(st) ==> err != nil                                                [@errprop]
+//@   ensures !Sfail(st) ==> err == nil                                               [@errprop]
+//@   ensures Spos(st) >= p0 && Spos(st) <= p0 + 4                                    [@consume]
+//@   modifies stream(d.r)                                                            [@frame]
+
+//@ func (*Decoder).readInt64(d) (res, err)
+//@   requires !isnil(d.r)
+//@   let st = stream(d.r)
+//@   let p0 = old(Spos(st))
+//@   ensures err == nil ==> res == int64(be64(Sinrow(st), p0)) && Spos(st) == p0 + 8 [@value @consume]
+//@   ensures Sfail(st) ==> err != nil                                                [@errprop]
+//@   ensures !Sfail(st) ==> err == nil                                               [@errprop]
+//@   ensures Spos(st) >= p0 && Spos(st) <= p0 + 8                                    [@consume]
+//@   modifies stream(d.r)                                                            [@frame]
+
+// A string is a signed 16-bit length followed by that many bytes; a negative length is an error.
+//@ func (*Decoder).readString(d) (res, err)
+//@   requires !isnil(d.r)
+//@   let st = stream(d.r)
+//@   let p0 = old(Spos(st))
+//@   let L = int(int16(be16(Sinrow(st), p0)))
+//@   ensures err == nil ==> L >= 0 && len(res) == L && Spos(st) == p0 + 2 + L        [@count @consume]
+//@   ensures err == nil ==> all(k, 0, L, res[k] == Sin(st, p0 + 2 + k))             [@value]
+//@   ensures Sfail(st) ==> err != nil                                                [@errprop]
+//@   ensures !Sfail(st) && L < 0 ==> err != nil                                      [@reject]
+//@   ensures !Sfail(st) && L >= 0 ==> err == nil                                     [@accept]
+//@   ensures Spos(st) >= p0                                                          [@consume]
+//@   modifies stream(d.r)                                                            [@frame]
+
+// rawRead skips one value of the given tag type (unknown-field skipping, RawMessage). It must
+// consume exactly the value's bytes, reject unknown tag ids and negative declared lengths, and
+// report reader failure. For lists and compounds the element walk is recursive; the contract
+// states there only what the recursion can carry without a recursive specification function:
+// progress, rejection of a negative element count, failure propagation.
+//@ define dtag(row, p) = int(u(at(row, p)))
+//@ func (*Decoder).rawRead(d; tagType) (err)
+//@   let st = stream(d.r)
+//@   let row = Sinrow(st)
+//@   let p0 = old(Spos(st))
+//@   let L16 = int(int16(be16(row, p0)))
+//@   let L32 = int(int32(be32(row, p0)))
+//@   requires !isnil(d.r)
+//@   loop 0: modifies stream(d.r)
+//@   loop 0: invariant 0 <= i && i <= L32 && L32 >= 0 && Spos(st) == p0 + 4 + 4*i && !Sfail(st)
+//@   loop 1: modifies stream(d.r)
+//@   loop 1: invariant 0 <= i && i <= L32 && L32 >= 0 && Spos(st) == p0 + 4 + 8*i && !Sfail(st)
+//@   loop 2: modifies stream(d.r)
+//@   loop 2: invariant 0 <= i && Spos(st) >= p0 + 5 && !Sfail(st) && int(int32(be32(row, p0 + 1))) >= 0
+//@   loop 3: modifies stream(d.r)
+//@   loop 3: invariant Spos(st) >= p0 && !Sfail(st)
+//@   ensures err == nil ==> 1 <= int(tagType) && int(tagType) <= 12                  [@reject]
+//@   ensures err == nil && tagType == 1 ==> Spos(st) == p0 + 1                       [@consume]
+//@   ensures err == nil && tagType == 2 ==> Spos(st) == p0 + 2                       [@consume]
+//@   ensures err == nil && (tagType == 3 || tagType == 5) ==> Spos(st) == p0 + 4     [@consume]
+//@   ensures err == nil && (tagType == 4 || tagType == 6) ==> Spos(st) == p0 + 8     [@consume]
+//@   ensures err == nil && tagType == 8 ==> L16 >= 0 && Spos(st) == p0 + 2 + L16     [@consume @reject]
+//@   ensures err == nil && tagType == 7 ==> L32 >= 0 && Spos(st) == p0 + 4 + L32     [@consume @reject]
+//@   ensures err == nil && tagType == 11 ==> L32 >= 0 && Spos(st) == p0 + 4 + 4*L32  [@consume @reject]
+//@   ensures err == nil && tagType == 12 ==> L32 >= 0 && Spos(st) == p0 + 4 + 8*L32  [@consume @reject]
+//@   ensures err == nil && tagType == 9 ==> int(int32(be32(row, p0 + 1))) >= 0 && Spos(st) >= p0 + 5   [@reject]
+//@   ensures err == nil && tagType == 10 ==> Spos(st) >= p0 + 1                      [@consume]
+//@   ensures Sfail(st) ==> err != nil                                                [@errprop]
+//@   ensures Spos(st) >= p0                                                          [@consume]
+//@   modifies stream(d.r)                                                            [@frame]
+
+//@ func (*Decoder).readTag(d) (tagType, tagName, err)
+//@   let st = stream(d.r)
+//@   let p0 = old(Spos(st))
+//@   requires !isnil(d.r)
+//@   ensures err == nil ==> tagType == Sin(st, p0) && Spos(st) >= p0 + 1             [@value @consume]
+//@   ensures err == nil && tagType == 0 ==> Spos(st) == p0 + 1                       [@consume]
+//@   ensures Sfail(st) ==> err != nil                                                [@errprop]
+//@   ensures Spos(st) >= p0                                                          [@consume]
+//@   modifies stream(d.r)                                                            [@frame]
